@@ -1112,11 +1112,20 @@ impl<'a, R: Read + Seek> BlocksToFileReader<'a, R> {
 
     /// Move `self.src` to the next continuous block
     fn move_to_next_block(&mut self) -> Result<(), Error> {
-        self.current_offset += 1;
-        if self.current_offset >= self.offsets.len() {
-            return Err(Error::WrongReaderState(
-                "[BlocksToFileReader] No more continuous blocks".to_string(),
-            ));
+        // An index may list every block of a file, not only the first block
+        // of each continuous sequence: offsets of blocks already read in
+        // sequence are skipped
+        let position = self.src.stream_position()?;
+        loop {
+            self.current_offset += 1;
+            if self.current_offset >= self.offsets.len() {
+                return Err(Error::WrongReaderState(
+                    "[BlocksToFileReader] No more continuous blocks".to_string(),
+                ));
+            }
+            if self.offsets[self.current_offset] >= position {
+                break;
+            }
         }
         self.src
             .seek(SeekFrom::Start(self.offsets[self.current_offset]))?;
